@@ -49,7 +49,8 @@ def findBrk (l : Option Label) (isBreak : Bool) : List BI → Option (List Instr
   | .loop lab bp cp :: rest =>
     if labMatch l lab then some ([], if isBreak then bp else cp) else findBrk l isBreak rest
   | .label x bp :: rest =>
-    if l == some x && isBreak then some ([], bp) else findBrk l isBreak rest
+    -- findBreakBlock stops at the FIRST block carrying the label; `continue` to a non-loop is then an error
+    if l == some x then (if isBreak then some ([], bp) else none) else findBrk l isBreak rest
   | .try_ :: rest =>
     match findBrk l isBreak rest with
     | some (ex, t) => some (Instr.leaveTry :: ex, t)
@@ -67,7 +68,7 @@ def findBrk (l : Option Label) (isBreak : Bool) : List BI → Option (List Instr
 def exitLen (l : Option Label) (isBreak : Bool) : List BS → Option Nat
   | [] => none
   | .loop lab :: rest => if labMatch l lab then some 0 else exitLen l isBreak rest
-  | .label x :: rest => if l == some x && isBreak then some 0 else exitLen l isBreak rest
+  | .label x :: rest => if l == some x then (if isBreak then some 0 else none) else exitLen l isBreak rest
   | .try_ :: rest => (exitLen l isBreak rest).map (· + 1)
   | .scope :: rest => (exitLen l isBreak rest).map (· + 1)
   | .with_ :: rest => (exitLen l isBreak rest).map (· + 1)
